@@ -272,3 +272,57 @@ def vec_op(opname, *args):
 
 norm_fn = z3.Function('norm', VecSort, z3.RealSort())
 vlen_fn = z3.Function('vlen', VecSort, z3.IntSort())
+
+
+# ------------------------------------------------------------------------------------------------
+# containers of containers with symbolic index: list of sets, list of dicts (int -> int)
+
+Pair = z3.Datatype('Pair')
+Pair.declare('mk', ('p', z3.IntSort()), ('i', z3.IntSort()))
+Pair = Pair.create()
+
+
+class SetListContent:
+    """python list (symbolic length) of sets of `elem_sort` elements: data : Int -> (elem -> Bool)"""
+
+    def __init__(self, length, data, elem_sort):
+        self.length, self.data, self.elem_sort = length, data, elem_sort
+
+    def copy(self):
+        return SetListContent(self.length, self.data, self.elem_sort)
+
+
+class MapListContent:
+    """python list (symbolic length) of dicts int -> int: has : Int -> (Int -> Bool), val : Int -> (Int -> Int)"""
+
+    def __init__(self, length, has, val):
+        self.length, self.has, self.val = length, has, val
+
+    def copy(self):
+        return MapListContent(self.length, self.has, self.val)
+
+
+class VSetView:
+    """the set stored at index `idx` of a SetListContent (a mutable object: stores go to the list)"""
+
+    def __init__(self, ref, idx):
+        self.ref, self.idx = ref, idx
+
+
+class VMapView:
+    def __init__(self, ref, idx):
+        self.ref, self.idx = ref, idx
+
+
+class VSetVal:
+    """an immutable set value (result of a set expression)"""
+
+    def __init__(self, arr, elem_sort):
+        self.arr, self.elem_sort = arr, elem_sort
+
+
+class VNested:
+    """nested function definition (closure over the enclosing frame)"""
+
+    def __init__(self, node):
+        self.node = node
